@@ -372,7 +372,8 @@ def run_model_many(prop, cases):
             p = subprocess.run(cmd, cwd=LEAN, stdin=fin, stdout=subprocess.PIPE, stderr=subprocess.PIPE, timeout=3600)
     finally:
         os.remove(inp)
-    lines = p.stdout.decode("utf-8", "replace").splitlines()
+    # split on '\n' only: str.splitlines() would also break at U+0085/U+2028/\x1c.. inside JSON strings
+    lines = [l for l in p.stdout.decode("utf-8", "replace").split("\n") if l != ""]
     outs = []
     for l in lines:
         try:
